@@ -174,7 +174,7 @@ class Gen:
 
     def index(self):
         cols = ", ".join(self.ch(["`a`", "b", "`c`(10)", "d(5)"]) for _ in range(self.n(1, 2)))
-        tail = self.ch(["", "", " USING BTREE", " COMMENT 'i'", " USING BTREE COMMENT 'i'", " KEY_BLOCK_SIZE = 8", " USING HASH KEY_BLOCK_SIZE = 4"])
+        tail = self.ch(["", "", " USING BTREE", " COMMENT 'i'", " USING BTREE COMMENT 'i'", " KEY_BLOCK_SIZE = 8", " USING HASH KEY_BLOCK_SIZE = 4", " KEY_BLOCK_SIZE=0", " USING BTREE COMMENT 'i' KEY_BLOCK_SIZE = 0"])
         k = self.r.below(5)
         if k == 0: return "PRIMARY KEY (" + cols + ")" + tail
         if k == 1: return "UNIQUE KEY `uk` (" + cols + ")" + tail
@@ -189,7 +189,7 @@ class Gen:
         elems = [self.coldef(i) for i in range(self.n(1, 4))] + [self.index() for _ in range(self.ch([0, 0, 1, 2]))]
         if self.p(0.3): elems = self.r.shuffle(elems)
         s = "CREATE TABLE " + self.ch(["", "", "IF NOT EXISTS ", "if not exists "]) + self.ch(TABLES) + " (" + ", ".join(elems) + ")"
-        opts = ["ENGINE=InnoDB", "ENGINE = MyISAM", "AUTO_INCREMENT=10", "DEFAULT CHARSET=utf8mb4", "COLLATE=utf8_bin", "COMMENT='tc'", "COMMENT 'tc2'",
+        opts = ["ENGINE=InnoDB", "ENGINE = MyISAM", "AUTO_INCREMENT=10", "AUTO_INCREMENT=0", "STATS_PERSISTENT=0", "DEFAULT CHARSET=utf8mb4", "COLLATE=utf8_bin", "COMMENT='tc'", "COMMENT 'tc2'",
                 "ROW_FORMAT=DYNAMIC", "STATS_PERSISTENT=1", "PARTITIONED BY (`dt` string COMMENT 'p', hr int)", "ROW FORMAT SERDE 'org.x.Serde'",
                 "ROW FORMAT DELIMITED FIELDS TERMINATED BY ','", "STORED AS INPUTFORMAT 'in.fmt'", "OUTPUTFORMAT 'out.fmt'", "STORED AS TEXTFILE",
                 "LOCATION 'hdfs://x/y'", "TBLPROPERTIES ('a.b'='1', 'c'='d')", "TBLPROPERTIES (k = v, x-y = z.w)", "engine innodb"]
